@@ -56,13 +56,16 @@ impl Expr {
 
 /// Resource checker kinds of the harness.
 #[derive(Serialize, Deserialize, Clone, Copy, Debug, PartialEq, Eq, Hash, PartialOrd, Ord)]
-pub enum RChk { Exact, Parity, Exists, Always, Near, AtLeast }
+pub enum RChk { Exact, Parity, Exists, Always, Near, AtLeast, Never }
 
 /// Output checker kinds: the five built-in checkers of pie and two instrumented ones of the harness.
 #[derive(Serialize, Deserialize, Clone, Copy, Debug, PartialEq, Eq, Hash, PartialOrd, Ord)]
-pub enum OChk { Equals, OkEquals, ErrEquals, ResultIs, Always, Parity, IEquals, Near, AtLeast }
+pub enum OChk { Equals, OkEquals, ErrEquals, ResultIs, Always, Parity, IEquals, Near, AtLeast, Never }
 
 pub const RCHKS: [RChk; 6] = [RChk::Exact, RChk::Parity, RChk::Exists, RChk::Always, RChk::Near, RChk::AtLeast];
+/// The default lists plus the volatile kind (only for the properties that do not claim 'nothing executes').
+pub const RCHKS_VOLATILE: [RChk; 7] = [RChk::Exact, RChk::Parity, RChk::Exists, RChk::Always, RChk::Near, RChk::AtLeast, RChk::Never];
+pub const OCHKS_VOLATILE: [OChk; 10] = [OChk::Equals, OChk::IEquals, OChk::Always, OChk::OkEquals, OChk::ErrEquals, OChk::ResultIs, OChk::Parity, OChk::Near, OChk::AtLeast, OChk::Never];
 pub const OCHKS: [OChk; 9] = [OChk::Equals, OChk::IEquals, OChk::Always, OChk::OkEquals, OChk::ErrEquals, OChk::ResultIs, OChk::Parity, OChk::Near, OChk::AtLeast];
 
 /// What a task sees of a resource through checker `c` (P7: outputs depend only on what checkers observe).
@@ -78,6 +81,8 @@ pub fn observe_r(c: RChk, v: Option<Val>) -> u8 {
     // Checkers whose consistency relation is not an equivalence (tolerance band, lower bound): the task may not let its
     // behaviour depend on the value at all, or reuse would legitimately be stale.
     (RChk::Near, _) | (RChk::AtLeast, _) => 0,
+    // A volatile dependency (its checker never reports consistency): re-validated every time, observes nothing.
+    (RChk::Never, _) => 0,
   }
 }
 
@@ -91,6 +96,7 @@ pub fn rel_r(c: RChk, then: u8, now: u8) -> bool {
   match c {
     RChk::Near => (then == 0 && now == 0) || (then > 0 && now > 0 && then.abs_diff(now) <= 1),
     RChk::AtLeast => now >= then,
+    RChk::Never => false,
     _ => then == now,
   }
 }
@@ -107,7 +113,7 @@ pub fn observe_o(c: OChk, o: &Out) -> u8 {
     OChk::ResultIs => o.is_err() as u8,
     OChk::Always => 0,
     OChk::Parity => out_num(o) % 2,
-    OChk::Near | OChk::AtLeast => 0,
+    OChk::Near | OChk::AtLeast | OChk::Never => 0,
   }
 }
 
@@ -115,7 +121,7 @@ pub fn observe_o(c: OChk, o: &Out) -> u8 {
 pub fn stamp_o(c: OChk, o: &Out) -> u8 { match c { OChk::Near | OChk::AtLeast => out_num(o), _ => observe_o(c, o) } }
 
 pub fn rel_o(c: OChk, then: u8, now: u8) -> bool {
-  match c { OChk::Near => then.abs_diff(now) <= 1, OChk::AtLeast => now >= then, _ => then == now }
+  match c { OChk::Near => then.abs_diff(now) <= 1, OChk::AtLeast => now >= then, OChk::Never => false, _ => then == now }
 }
 
 #[derive(Serialize, Deserialize, Clone, Debug, PartialEq, Eq, Hash)]
